@@ -32,6 +32,7 @@ func (g *gen) makeIface(st *State, v *Val, it types.Type) *Val {
 		return &Val{T: it, L: v.L}
 	}
 	b := Fresh("box", SInt)
+	g.boxed[b.id] = v
 	g.assumeGlobal(Lt(Int(0), b))
 	g.assumeGlobal(Eq(ifaceTag(b), tagOf(v.T)))
 	for i, l := range leavesOf(v.T) {
@@ -56,7 +57,24 @@ func (g *gen) unbox(st *State, box *Term, t types.Type) *Val {
 
 func (g *gen) execBlock(b *ssa.BasicBlock, st *State, cur *loopInfo) {
 	g.curBlk = b
-	defer func() { g.curBlk = nil }()
+	// source-level variable bindings and latest call results are inherited
+	// from the immediate dominator, so that a name always denotes a value
+	// that is defined on every path to this block
+	g.varAt = map[string]ssa.Value{}
+	g.lastCall = map[string]*Val{}
+	if d := b.Idom(); d != nil {
+		for k, v := range g.varAtBlock[d] {
+			g.varAt[k] = v
+		}
+		for k, v := range g.lastCallBlock[d] {
+			g.lastCall[k] = v
+		}
+	}
+	defer func() {
+		g.varAtBlock[b] = g.varAt
+		g.lastCallBlock[b] = g.lastCall
+		g.curBlk = nil
+	}()
 	for _, ins := range b.Instrs {
 		g.curInstr = ins
 		if st.reach.IsFalse() {
@@ -237,7 +255,7 @@ func (g *gen) execInstr(ins ssa.Instruction, st *State, b *ssa.BasicBlock) {
 		for _, r := range x.Results {
 			rs = append(rs, g.val(r))
 		}
-		g.retStates = append(g.retStates, &retPoint{st: &State{reach: st.reach, heap: st.heap, wm: st.wm}, results: rs, pos: x.Pos()})
+		g.retStates = append(g.retStates, &retPoint{vars: g.varAt, st: &State{reach: st.reach, heap: st.heap, wm: st.wm}, results: rs, pos: x.Pos()})
 	case *ssa.Panic:
 		g.oblige(st, "safe:panic", g.lbl(x.Pos(), "call", "panic"), False, "explicit panic reachable")
 	default:
